@@ -125,6 +125,7 @@ pub fn build_file(c: &XzCase, orig_check: u8) -> Option<XzFile> {
         "fmagic" => f.fmagic_xor = 0x20,
         "idxN" => f.idx_count = Some(m.v as u64),
         "idxFewer" => f.idx_keep = Some(m.v as usize),
+        "idxPerm" => f.idx_perm = m.v as u8,
         "backward" => f.backward = Some(m.v as u32),
         "trailing" => f.trailing = vec![0u8; m.v as usize],
         "reserved" => f.blocks[bi].flags_or = m.v as u8,
@@ -314,8 +315,9 @@ fn prop_wants(prop: &str, c: &XzCase) -> bool {
     let unsupported_feature = matches!(c.mutation.f.as_str(), "reserved" | "fid" | "nfilters" | "hnull" | "fnull" | "hres" | "fres" | "bothres") || !matches!(c.check, 0 | 1 | 4);
     match prop {
         "C03" => c.mutation.f == "none" && matches!(c.check, 0 | 1 | 4),
+        // (the size of the LZMA2 filter's properties field - mutation propsLen - is listed by neither C06 nor C18)
         "C18" => unsupported_feature || (c.mutation.f == "trailing"),
-        "C06" => c.mutation.f != "none" && matches!(c.check, 0 | 1 | 4),
+        "C06" => c.mutation.f != "none" && c.mutation.f != "propsLen" && matches!(c.check, 0 | 1 | 4),
         _ => true,
     }
 }
@@ -491,7 +493,8 @@ pub fn flips(prop: &str, seed: u64, nfiles: usize, rep: &mut Report) {
         let content = f.content();
         let base = api::xz_bytes(&lay.bytes);
         if base.verdict != Verdict::Ok || base.out != content {
-            rep.violation("C03", format!("well-formed file rejected or mis-decoded: {}", base.msg), json!({"kind": "xzbytes", "file_hex": hex(&lay.bytes), "expect_hex": hex(&content)}));
+            // the flips of C06 need a file that decodes to start from; that it does is C03's text
+            rep.drift(format!("(C03 clause seen while checking {}) well-formed file rejected or mis-decoded: {}", prop, base.msg), json!({"file_len": lay.bytes.len()}));
             continue;
         }
         let mut silent = 0;
